@@ -4,7 +4,39 @@
 
 package cgf
 
-// SendCDR transfers the CDR file over FTP (outside the verified subset): it returns an error or nil
-// and touches no charging state.
-//@ func SendCDR [C11 C12]
-//@   trusted
+import "sync"
+
+// verif_held: the mutex is held by the current request (interpreted by govc)
+func verif_held(mu *sync.Mutex) bool { return true }
+
+func verif_forall[T any](f func(T) bool) bool { return true }
+
+// The FTP connection is shared by all requests (any subscriber): it is read and replaced only with
+// connMutex held (C09: no data race on global state). The FTP client itself is an opaque dependency.
+//@ func Login [C09 C11]
+//@   requires cgf != nil && len(cgf.ftpConfig.Accesses) > 0 && !verif_held(&cgf.connMutex)
+//@   modifies field(cgf, conn)
+//@   ensures result == nil ==> cgf.conn != nil
+
+//@ func login [C09 C11]
+//@   requires cgf != nil && len(cgf.ftpConfig.Accesses) > 0 && verif_held(&cgf.connMutex)
+//@   modifies field(cgf, conn)
+//@   ensures result == nil ==> cgf.conn != nil
+
+// SpecReady: the state OpenServer leaves behind when the CGF is enabled (client structure with one FTP
+// account), and the current request does not hold the connection mutex
+func SpecReady() bool {
+	return !CGFEnable || (cgf != nil && len(cgf.ftpConfig.Accesses) > 0 && !verif_held(&cgf.connMutex))
+}
+
+// SendCDR transfers the CDR file over FTP: it returns an error or nil and touches no charging state;
+// nothing in it panics once OpenServer has run (CGFEnable implies the client structure exists). Assumed
+// about the FTP client library: the directory listing holds no nil entry.
+//@ func SendCDR [C09 C11 C12]
+//@   requires SpecReady()
+//@   modifies field(cgf, conn)
+//@   assert "if cgf.conn == nil": [C09] verif_held(&cgf.connMutex)
+//@   assert "ping_err := cgf.conn.NoOp()": [C09] verif_held(&cgf.connMutex)
+//@   assert "stor_err := cgf.conn.Stor(": [C09] verif_held(&cgf.connMutex)
+//@   assume "for _, entry := range entries": forall k int :: 0 <= k && k < len(entries) ==> entries[k] != nil
+//@   loop 0: invariant 0 <= ITER && ITER <= len(entries)
